@@ -37,10 +37,12 @@ func (w *ViewContexts) For(hv *HeightView) (context.Context, error) {
 	defer w.mutex.Unlock()
 
 	if w.shutdown {
+		verifCtxOp(w, "for", hv, "shutdown")
 		return nil, fmt.Errorf("shutting down")
 	}
 
 	if w.newestHvCanceledOlder != nil && hv.OlderThan(w.newestHvCanceledOlder) {
+		verifCtxOp(w, "for", hv, "stale")
 		return nil, fmt.Errorf("requested context for stale height/view %s", hv)
 	}
 
@@ -54,12 +56,14 @@ func (w *ViewContexts) For(hv *HeightView) (context.Context, error) {
 		w.hvToContext[*hv] = cc
 	}
 
+	verifCtxOp(w, "for", hv, "ok")
 	return cc.ctx, nil
 }
 
 func (w *ViewContexts) CancelOlderThan(hv *HeightView) {
 	w.mutex.Lock()
 	defer w.mutex.Unlock()
+	verifCtxOp(w, "cancel", hv, "")
 
 	for chv, cc := range w.hvToContext {
 		if chv.OlderThan(hv) {
@@ -76,6 +80,7 @@ func (w *ViewContexts) CancelOlderThan(hv *HeightView) {
 func (w *ViewContexts) Shutdown() {
 	w.mutex.Lock()
 	defer w.mutex.Unlock()
+	verifCtxOp(w, "shutdown", nil, "")
 
 	w.parentCtxWithCancel.cancel()
 	w.shutdown = true
